@@ -9,6 +9,7 @@ mod exec_ocf;
 mod panics;
 mod scan;
 mod sink;
+mod sinkscan;
 mod tagged;
 
 #[global_allocator]
